@@ -30,7 +30,7 @@ structure DSt where
   cmds : List Cmd := []
   init : Option (Nat × String) := none
   table : Option (List Tab) := none
-  foreignSeen : Bool := false      -- an unowned hash slot was written in this case: later runs are not predicted
+  foreignSeen : Bool := false      -- a known finding fired in this case: its later runs are not predicted
 
 def cfg : Cfg := { slot := 1, owned := [1, 2, 3], legacyDefault := false }
 
@@ -248,6 +248,33 @@ def foreignVerdict (cmds : List Cmd) (toks : List String) : List String × Optio
     else (toks, some "viol:unparseable-output")
   | none => (toks, some "viol:unparseable-output")
 
+/-- KNOWN FINDING pattern: inside ONE successful batch a CleanupMigrationOutbox (type 23)
+    is followed by a command of the same hash slot that the implementation answers
+    `fenced` although one at a time (after the cleanup removed the migration state) it is
+    not fenced: `applyMigrationOutboxCleanup` deletes the entry from the batch's pending
+    map instead of recording the deletion, so `isHashSlotFenced` falls back to the
+    COMMITTED (pre-batch) state. -/
+def staleFencePattern (tab : List Tab) (cmds : List Cmd) (toks : List String) : Bool :=
+  toks.any (fun tok =>
+    match tok.splitOn "@" with
+    | [pre, _] =>
+      let pairs := (pre.splitOn ",").filterMap (fun p =>
+        match p.splitOn ":" with
+        | [i, r] => i.toNat?.map (fun i => (i, r))
+        | _ => none)
+      pairs.length ≥ 2 &&
+      (List.range pairs.length).any (fun j =>
+        let pj := pairs.getD j (0, "")
+        pj.2 == "fenced" &&
+        ((tab.find? (fun t => t.index = pj.1)).map (·.tok)) ≠ some "fenced" &&
+        (List.range j).any (fun i =>
+          let pi := pairs.getD i (0, "")
+          pi.2 == "ok" &&
+          (match cmds.find? (fun c => c.index = pi.1), cmds.find? (fun c => c.index = pj.1) with
+           | some ci, some cj => cmdType ci.data == some 23 && ci.hashSlot == cj.hashSlot
+           | _, _ => false)))
+    | _ => false)
+
 def c13Step (st : DSt) (op impl : String) : DSt × String × String :=
   match fields op with
   | ["c", i, s, h, d, _] =>
@@ -266,7 +293,9 @@ def c13Step (st : DSt) (op impl : String) : DSt × String × String :=
       | none =>
         let (m, v) := predict tab st.cmds (plan.splitOn ",") { kv := d0, applied := a0 } toks
         let v := if v ≠ "ok" then v else classify m toks
-        (st, " ".intercalate (m ++ [utok]), v)
+        if v ≠ "ok" ∧ staleFencePattern tab st.cmds toks then
+          ({ st with foreignSeen := true }, "-", "viol:batch-not-transparent:stale-fence-after-outbox-cleanup")
+        else (st, " ".intercalate (m ++ [utok]), v)
     | _, _ =>
       let (init, tab, v) := judgeFirst st.cmds toks
       match fv with
